@@ -194,6 +194,58 @@ Theorem C07_edits_ok_never_panics :
 Proof. exact edits_ok_resolve. Qed.
 Print Assumptions C07_edits_ok_never_panics.
 
+(* ---- rewrite.def: from the TEXT the user writes to the table and exempt set of the theorems above
+        (Model/RewriteDefText.v = DefaultInputTextPlugin::read_rewrite_lists) ---- *)
+From SudachiVerif Require Import Model.RewriteDefText Proofs.RewriteDefTextProofs.
+
+(* an accepted text contains no malformed line; the exempt set is exactly the one-column lines and the table exactly the
+   two-column lines, both in file order (a line = what is left after trim; skipped when empty or starting with '#';
+   columns = split_whitespace; '#' anywhere else is an ordinary character); and the table has distinct non-empty keys *)
+Theorem C07_rewrite_def_spec :
+  forall (t : text) ign tb, read_rewrite_def t = RdOk ign tb ->
+    forallb line_ok (map classify (lines t)) = true
+    /\ ign = ign_of (map classify (lines t))
+    /\ tb = rules_of (map classify (lines t))
+    /\ table_wf tb = true.
+Proof. exact read_ok_spec. Qed.
+Print Assumptions C07_rewrite_def_spec.
+
+(* errors enumerated: the reported line is the first offending one, the lines before it were read without error, and
+   the kind is: one column of more than one character (ENotChar), three or more columns (ECols), or a two-column line
+   whose key an earlier two-column line already defined (EDup) *)
+Theorem C07_rewrite_def_errors :
+  forall (t : text) e j, read_rewrite_def t = RdErr e j ->
+    exists raw ign1 tb1, nth_error (lines t) j = Some raw
+      /\ read_lines 0 [] [] (firstn j (lines t)) = RdOk ign1 tb1
+      /\ match e with
+         | ENotChar => classify raw = LBadChar
+         | ECols => classify raw = LBadCols
+         | EDup => exists k v, classify raw = LRule k v /\ has_key tb1 k = true
+         end.
+Proof. exact read_err_spec. Qed.
+Print Assumptions C07_rewrite_def_errors.
+
+(* ... and nothing else is rejected *)
+Theorem C07_rewrite_def_accepts :
+  forall (t : text),
+    forallb line_ok (map classify (lines t)) = true -> keys_distinct (rules_of (map classify (lines t))) = true ->
+    exists ign tb, read_rewrite_def t = RdOk ign tb.
+Proof. exact read_total. Qed.
+Print Assumptions C07_rewrite_def_accepts.
+
+(* the headline theorem with the rewrite-table hypothesis produced from the file text *)
+Theorem C07_rewrite_def_normalises :
+  forall (lower : cp -> text) (nfkc : text -> text) (qc_yes upper : cp -> bool) (deftext : text) ign tb,
+    read_rewrite_def deftext = RdOk ign tb ->
+    (forall c, qc_yes c = true -> nfkc (lower c) = lower c) ->
+    (forall c, head_law c (lower c) /\ head_law c (nfkc [c]) /\ head_law c (nfkc (lower c))) ->
+    forall (qc_text : bool) t,
+      (qc_text = true -> forall c, In c t -> qc_yes c = true) ->
+      default_rewrite lower nfkc qc_yes upper tb (mem_n ign) qc_text t
+      = Some (normalize_spec lower nfkc tb (mem_n ign) t).
+Proof. exact (read_then_rewrite C07_fact_slow_search_longest C07_fact_lowercase_guard C07_fact_path_guard). Qed.
+Print Assumptions C07_rewrite_def_normalises.
+
 (* ==================================================================================================================
    C07 composed with C08 / C01 (Proofs/NormalizeBuffer.v).
    Model/Buffer.v (C08, C01) proves the offset-map invariant and the partition theorems for buffer states reachable by
